@@ -297,6 +297,11 @@ Theorem C16_shift_r_zero : forall l p, 0 < p -> shift_r l 0 p = Ok l.
 Proof. exact shift_r_zero. Qed.
 Print Assumptions C16_shift_r_zero.
 
+(* ... and a left shift by nothing returns a field element unchanged: the mask keeps every bit *)
+Theorem C16_shift_l_zero : forall l p, 0 < p -> 0 <= l < p -> shift_l l 0 p = Ok l.
+Proof. exact shift_l_zero. Qed.
+Print Assumptions C16_shift_l_zero.
+
 (* non-vacuity: p = 7, where 5 is the signed representative -2, and 4 is -3, so 4 < 5 < 3 *)
 Example C16_laws_witnesses :
   prime 7 /\ div 3 5 7 = Ok 2 /\ mul 2 5 7 = 3 /\ div (mul 3 5 7) 5 7 = Ok 3 /\
